@@ -1,4 +1,10 @@
 /* C19 correspondence harness: esl_keyhash.c, esl_heap.c, esl_red_black.c, esl_stack.c, esl_quicksort.c */
+/* esl_red_black.c is compiled into the harness (first, so that the linker takes these definitions) with its test-only
+ * section enabled: that is the only way to reach the static esl_red_black_doublekey_linked_list_test(). */
+#define eslRED_BLACK_TESTDRIVE 1
+#define main esl_red_black_utest_main
+#include "esl_red_black.c"
+#undef main
 #include "hcommon.h"
 #include "esl_keyhash.h"
 #include "esl_heap.h"
@@ -73,6 +79,7 @@ static uint64_t fnv(uint64_t h, uint64_t x) { return (h ^ x) * 0x100000001b3ULL;
 #define FNV0 0xcbf29ce484222325ULL
 
 static void rb_teardown(void);
+static void rp_teardown(void); static int RPPOOL;
 static void h_case_begin(void) { h_watchdog_begin(); RBEXP = 0; KH2 = NULL; KH = NULL; HP = NULL; RB = NULL; ST = NULL; if (h_skip_case) return; KH = esl_keyhash_Create(); HP = esl_heap_ICreate(eslHEAP_MIN); RB = NULL; ST = esl_stack_ICreate(); STYPE = 'i'; STCOND = 0; }
 static void h_case_end(void)
 {
@@ -81,6 +88,7 @@ static void h_case_end(void)
   if (KH2) esl_keyhash_Destroy(KH2); KH2 = NULL;
   if (HP) esl_heap_Destroy(HP); HP = NULL;
   rb_teardown(); RBPOOLSIZE = 0;
+  rp_teardown(); RPPOOL = 0;
   if (ST) esl_stack_Destroy(ST); ST = NULL;
 }
 
@@ -151,6 +159,49 @@ static ESL_RED_BLACK_DOUBLEKEY *rb_newnode(void)
     if (RBPOOLNEXT == NULL) return NULL;
   }
   n = RBPOOLNEXT; RBPOOLNEXT = n->large;     /* take the head of the free list */
+  return n;
+}
+
+
+/* ---- pointer-level red-black ops (rp_*): every record has an id = its index in the model's store */
+struct rpc { int64_t key; int id; };
+static ESL_RED_BLACK_DOUBLEKEY *RP, *RPFREE, *RPHEAD, *RPTAIL, *RPCURBLOCK;
+static ESL_RED_BLACK_DOUBLEKEY **RPNODE;   /* id -> record */
+static char *RPIN;                          /* id -> linked into the tree */
+static int RPNEXTID, RPCAP, RPLIST, RPCURBASE;
+static ESL_RED_BLACK_DOUBLEKEY **RPBLOCKS; static int RPNBLOCKS, RPBLOCKCAP;
+static int *RPPUSHED; static int RPNPUSHED, RPPUSHCAP;
+static void rp_reserve(int n)
+{
+  if (n <= RPCAP) return;
+  { int c = RPCAP ? RPCAP : 64; while (c < n) c *= 2;
+    RPNODE = realloc(RPNODE, sizeof(*RPNODE) * (size_t) c); RPIN = realloc(RPIN, (size_t) c);
+    memset(RPNODE + RPCAP, 0, sizeof(*RPNODE) * (size_t)(c - RPCAP)); memset(RPIN + RPCAP, 0, (size_t)(c - RPCAP)); RPCAP = c; }
+}
+static void rp_teardown(void)
+{
+  int i;
+  for (i = 0; i < RPNEXTID; i++) if (RPIN && RPIN[i] && RPNODE[i]) { free(RPNODE[i]->contents); RPNODE[i]->contents = NULL; if (RPPOOL <= 0) free(RPNODE[i]); }
+  for (i = 0; i < RPNBLOCKS; i++) free(RPBLOCKS[i]);
+  RPNBLOCKS = 0; RPNPUSHED = 0; RPNEXTID = 0; RP = RPFREE = RPHEAD = RPTAIL = RPCURBLOCK = NULL; RPLIST = 0; RPCURBASE = 0;
+  if (RPIN) memset(RPIN, 0, (size_t) RPCAP);
+}
+static int rp_id(ESL_RED_BLACK_DOUBLEKEY *p) { return p && p->contents ? ((struct rpc *) p->contents)->id : -2; }
+static void rp_ptr(ESL_RED_BLACK_DOUBLEKEY *p) { if (p == NULL) ob_add("-"); else ob_add("%d", rp_id(p)); }
+/* a record for the next insertion, and its id */
+static ESL_RED_BLACK_DOUBLEKEY *rp_take(int *ret_id)
+{
+  ESL_RED_BLACK_DOUBLEKEY *n;
+  if (RPPOOL <= 0) { n = esl_red_black_doublekey_Create(); *ret_id = RPNEXTID++; rp_reserve(RPNEXTID); return n; }
+  if (RPFREE == NULL) {
+    RPFREE = esl_red_black_doublekey_pool_Create(RPPOOL);
+    if (RPFREE == NULL) return NULL;
+    if (RPNBLOCKS == RPBLOCKCAP) { RPBLOCKCAP = RPBLOCKCAP ? 2 * RPBLOCKCAP : 16; RPBLOCKS = realloc(RPBLOCKS, sizeof(*RPBLOCKS) * (size_t) RPBLOCKCAP); }
+    RPBLOCKS[RPNBLOCKS++] = RPFREE; RPCURBLOCK = RPFREE; RPCURBASE = RPNEXTID; RPNEXTID += RPPOOL; rp_reserve(RPNEXTID);
+  }
+  n = RPFREE; RPFREE = n->large;
+  if (RPNPUSHED > 0) *ret_id = RPPUSHED[--RPNPUSHED];              /* a record given back after a duplicate */
+  else               *ret_id = RPCURBASE + (int)(n - RPCURBLOCK);  /* a fresh record of the current block   */
   return n;
 }
 
@@ -246,6 +297,23 @@ static void h_op(void)
     if (KH2 == NULL) { h_out("bad-op"); return; }
     KH = KH2; KH2 = t;
     h_out("ok");
+  } else if (!strcmp(op, "kh_dump")) {
+    /* esl_keyhash_Dump() to a memory stream; the numbers it prints, and esl_keyhash_Sizeof() minus the struct */
+    char *buf = NULL; size_t len = 0; FILE *fp = open_memstream(&buf, &len);
+    long long v[10]; int nv = 0; char *q;
+    esl_keyhash_Dump(fp, KH); fclose(fp);
+    for (q = buf; q && *q && nv < 10; ) {                 /* one number per line, after the colon (line 3 is a float) */
+      char *colon = strchr(q, ':'), *nl = strchr(q, '\n');
+      if (!colon) break;
+      v[nv++] = strtoll(colon + 1, NULL, 10);
+      if (!nl) break;
+      q = nl + 1;
+    }
+    if (nv != 10) h_out("unparsable");
+    else if (v[9] != (long long)(int) esl_keyhash_Sizeof(KH)) h_out("sizeof-mismatch");
+    else h_out("ok nkeys=%lld sn=%lld hashsize=%lld nempty=%lld max=%lld min=%lld kalloc=%lld salloc=%lld size=%lld",
+               v[0], v[8], v[1], v[3], v[4], v[5], v[6], v[7], (long long) esl_keyhash_Sizeof(KH) - (long long) sizeof(ESL_KEYHASH));
+    free(buf);
   } else if (!strcmp(op, "kh_sizes")) {
     h_out("ok hashsize=%u kalloc=%d salloc=%d sn=%d", KH->hashsize, KH->kalloc, KH->salloc, KH->sn);
   }
@@ -336,6 +404,91 @@ static void h_op(void)
     if (RBPOOLSIZE > 0) { for (p = head, k = 0; p != NULL && k <= total; p = p->small, k++) { free(p->contents); p->contents = NULL; } RB = NULL; rb_teardown(); }
     else esl_red_black_doublekey_linked_list_Destroy(head, tail);
     RB = NULL;
+  }
+  /* ------------------------------------------------ red-black tree, pointer level */
+  else if (!strcmp(op, "rp_new")) {
+    rp_teardown(); RPPOOL = (int) h_argi("pool", 0); h_out("ok");
+  } else if (!strcmp(op, "rp_ins")) {
+    long long *v; int n, i;
+    if (RPLIST) { h_out("bad-op"); return; }
+    n = parse_ints(h_arg("k"), &v); ob_reset(); ob_add("ok ");
+    for (i = 0; i < n; i++) {
+      int id; ESL_RED_BLACK_DOUBLEKEY *node = rp_take(&id), *t; struct rpc *c;
+      if (node == NULL) { ob_add(i ? ",E" : "E"); continue; }
+      c = malloc(sizeof(*c)); c->key = v[i]; c->id = id;
+      node->contents = c; node->key = (double) v[i]; RPNODE[id] = node;
+      t = esl_red_black_doublekey_insert(RP, node);
+      if (t == NULL) {
+        ob_add(i ? ",d%d" : "d%d", id); free(c); node->contents = NULL; RPNODE[id] = NULL;
+        if (RPPOOL <= 0) free(node);
+        else { node->large = RPFREE; RPFREE = node;
+               if (RPNPUSHED == RPPUSHCAP) { RPPUSHCAP = RPPUSHCAP ? 2 * RPPUSHCAP : 16; RPPUSHED = realloc(RPPUSHED, sizeof(int) * (size_t) RPPUSHCAP); }
+               RPPUSHED[RPNPUSHED++] = id; }
+      } else { RP = t; RPIN[id] = 1; ob_add(i ? ",i%d" : "i%d", id); }
+    }
+    if (n == 0) ob_add("-");
+    free(v);
+    ob_add(" root="); rp_ptr(RP);
+    h_out("%s", OB);
+  } else if (!strcmp(op, "rp_nodes") || !strcmp(op, "rp_hash")) {
+    int i, cnt = 0, full = !strcmp(op, "rp_nodes"); uint64_t h = FNV0;
+    for (i = 0; i < RPNEXTID; i++) if (RPIN[i]) cnt++;
+    ob_reset(); ob_add("ok root="); rp_ptr(RP); ob_add(" n=%d", cnt);
+    for (i = 0; i < RPNEXTID; i++) if (RPIN[i]) {
+      ESL_RED_BLACK_DOUBLEKEY *p = RPNODE[i];
+      if (full) {
+        ob_add(" %d:%lld:%s:", i, (long long) p->key, p->color == ESL_RED_BLACK_COLOR_RED ? "R" : (p->color == ESL_RED_BLACK_COLOR_BLACK ? "B" : "?"));
+        rp_ptr(p->parent); ob_add(":"); rp_ptr(p->small); ob_add(":"); rp_ptr(p->large);
+      } else {
+        h = fnv(h, (uint64_t) i); h = fnv(h, (uint64_t)(int64_t) p->key); h = fnv(h, p->color == ESL_RED_BLACK_COLOR_RED ? 1 : 2);
+        h = fnv(h, p->parent ? (uint64_t)(rp_id(p->parent) + 1) : 0); h = fnv(h, p->small ? (uint64_t)(rp_id(p->small) + 1) : 0);
+        h = fnv(h, p->large ? (uint64_t)(rp_id(p->large) + 1) : 0);
+      }
+    }
+    if (!full) ob_add(" h=%016" PRIx64, h);
+    h_out("%s", OB);
+  } else if (!strcmp(op, "rp_lookup")) {
+    long long *v; int n, i;
+    if (RPLIST) { h_out("bad-op"); return; }
+    n = parse_ints(h_arg("k"), &v); ob_reset(); ob_add("ok ");
+    for (i = 0; i < n; i++) {
+      struct rpc *c = esl_red_black_doublekey_lookup(RP, (double) v[i]);
+      if (c == NULL) ob_add(i ? ",-" : "-"); else ob_add(i ? ",%d" : "%d", c->id);
+    }
+    if (n == 0) ob_add("-");
+    free(v);
+    h_out("%s", OB);
+  } else if (!strcmp(op, "rp_pool")) {
+    /* the free list: fresh records of the current block carry no id yet: computed from their position */
+    ESL_RED_BLACK_DOUBLEKEY *p; int k = 0, npush = RPNPUSHED;
+    ob_reset(); ob_add("ok free=");
+    for (p = RPFREE; p != NULL && k <= RPNEXTID; p = p->large, k++) {
+      int id = npush > 0 ? RPPUSHED[--npush] : RPCURBASE + (int)(p - RPCURBLOCK);
+      ob_int(id, k == 0);
+    }
+    if (k == 0) ob_add("-");
+    h_out("%s", OB);
+  } else if (!strcmp(op, "rp_convert")) {
+    int st;
+    if (RPLIST) { h_out("bad-op"); return; }
+    st = esl_red_black_doublekey_convert_to_sorted_linked(RP, &RPHEAD, &RPTAIL);
+    if (st != eslOK) { h_out("%s", h_status(st)); return; }
+    RP = NULL; RPLIST = 1;
+    ob_reset(); ob_add("ok head="); rp_ptr(RPHEAD); ob_add(" tail="); rp_ptr(RPTAIL);
+    h_out("%s", OB);
+  } else if (!strcmp(op, "rp_ltest")) {
+    if (!RPLIST) { h_out("bad-op"); return; }
+    h_out("%s", h_status(esl_red_black_doublekey_linked_list_test(&RPHEAD, &RPTAIL)));
+  } else if (!strcmp(op, "rp_walk")) {
+    ESL_RED_BLACK_DOUBLEKEY *p; int k;
+    if (!RPLIST) { h_out("bad-op"); return; }
+    ob_reset(); ob_add("ok desc=");
+    for (p = RPHEAD, k = 0; p != NULL && k <= RPNEXTID; p = p->small, k++) ob_int(rp_id(p), k == 0);
+    if (k == 0) ob_add("-");
+    ob_add(" asc=");
+    for (p = RPTAIL, k = 0; p != NULL && k <= RPNEXTID; p = p->large, k++) ob_int(rp_id(p), k == 0);
+    if (k == 0) ob_add("-");
+    h_out("%s", OB);
   }
   /* ------------------------------------------------ stacks */
   else if (!strcmp(op, "st_new")) {
